@@ -408,6 +408,56 @@ def retired_stay(ctx: Ctx, pid: str):
                        "group: it never runs, but the bodies nested in it must stay blocked by it)")
 
 
+def _partners_missing(elt, grp, body, dep, dit, dc, _b) -> bool:
+    """The general form (F48): for dep in body.simultaneous_list (every partner, not only an enclosing one):
+    not any(group & frozenset(transactions_for(alt)) for alt in ALTS), where ALTS are the partners of `body` that are `dep`
+    itself or are declared alternatives of it (members of one family [x, *x.independent_list], x a partner of body)."""
+    if dit != ("a", body, "simultaneous_list") or dc:
+        return False
+    if not (elt[0] == "op" and elt[1] == "not" and len(elt) == 3):
+        return False
+    inner = pmatch("any(Q_g)", elt[2])
+    if inner is None or inner["g"][0] != "lc" or len(inner["g"][3]) != 1:
+        return False
+    ab, ait, ac = inner["g"][3][0]
+    ab = _b(ab)
+    ie = inner["g"][2]
+    if ac or not (ie[0] == "op" and ie[1] == "&" and len(ie) == 4 and grp in ie[2:]):
+        return False
+    other = [t for t in ie[2:] if t != grp]
+    mo = pmatch("frozenset(Q_t)", other[0]) if len(other) == 1 else None
+    if mo is None or not _tf(mo["t"], ab):
+        return False
+    # ALTS: [d for d in body.simultaneous_list if d is dep or <d and dep share a family>]
+    if ait[0] != "lc" or len(ait[3]) != 1:
+        return False
+    cb, cit, cc = ait[3][0]
+    cb = _b(cb)
+    if ait[2] != cb or cit != ("a", body, "simultaneous_list") or len(cc) != 1:
+        return False
+    f = to_formula(cc[0])
+    ats = atoms_of(f)
+    same = [t for t in ats if t[0] == "op" and t[1] in ("is", "==") and set(t[2:]) == {cb, dep}]
+    fam = [t for t in ats if t not in same]
+    if len(same) != 1 or len(fam) != 1 or equivalent(f, f_or(A(same[0]), A(fam[0]))) is not None:
+        return False
+    # the family test: any(dep in f and d in f for f in [[x, *x.independent_list] for x in body.simultaneous_list])
+    mf = pmatch("any(Q_g)", fam[0])
+    if mf is None or mf["g"][0] != "lc" or len(mf["g"][3]) != 1:
+        return False
+    fb, fit, fc = mf["g"][3][0]
+    fb = _b(fb)
+    ff = to_formula(mf["g"][2])
+    want = f_and(A(("op", "in", cb, fb)), A(("op", "in", dep, fb)))
+    if fc or equivalent(ff, want) is not None:
+        return False
+    if fit[0] != "lc" or len(fit[3]) != 1:
+        return False
+    xb, xit, xc = fit[3][0]
+    xb = _b(xb)
+    return not xc and xit == ("a", body, "simultaneous_list") and fit[2] == ("list", xb, ("star", ("a", xb, "independent_list")))
+
+
 def _enclosing_missing_atom(x, a, gb) -> bool:
     """a == any(not group & frozenset(transactions_for(dep)) for t in group for dep in ready_dependencies[t] if dep in t.simultaneous_list)
     for the group bound by `gb` (None: any binder), ready_dependencies being the result of self._ready_dependencies."""
@@ -423,6 +473,8 @@ def _enclosing_missing_atom(x, a, gb) -> bool:
     mb, tb, db = _b(mb), _b(tb), _b(db)
     grp = tit
     mr = pmatch("Q_mm.ready_for_transaction(Q_t)", bit)
+    if _partners_missing(ma["g"][2], grp, tb, db, dit, dc, _b) and not ((gb is not None and grp != gb) or tc or bc or mr is None or mr["t"] != mb):
+        return True
     md = pmatch("Q_rd[Q_t]", dit)
     if (gb is not None and grp != gb) or tc or bc or mr is None or mr["t"] != mb or md is None or md["t"] != tb:
         return False
@@ -440,6 +492,27 @@ def _enclosing_missing_atom(x, a, gb) -> bool:
     other = [t for t in inter[2:] if t != grp]
     mo = pmatch("frozenset(Q_t)", other[0]) if len(other) == 1 else None
     return mo is not None and _tf(mo["t"], db)
+
+
+def group_complete(ctx: Ctx, pid: str):
+    """F48 (C13 itself): a merged transaction that runs a body runs each of its simultaneous partners (one of a family of
+    alternatives) as well - the group test ranges over EVERY partner of every body the group runs, not only over the body a
+    nested member is enclosed in.  (group_has_enclosing decides that the members are called iff the test is false.)"""
+    rule = f"{pid}.simultaneous-group-complete"
+    fn = _fn(ctx, MANAGER, "TransactionManager._simultaneous", rule)
+    general = False
+    for x, j in fn.facts(Jump, lambda j: j.kind == "continue"):
+        lp = loops(j)
+        if len(lp) != 1:
+            continue
+        for a in atoms_of(py_guard(j)):
+            ma = pmatch("any(Q_g)", a)
+            if ma is not None and ma["g"][0] == "lc" and len(ma["g"][3]) == 3 and _enclosing_missing_atom(x, a, lp[0][0][0]):
+                body = ma["g"][3][1][0]
+                body = body[0] if isinstance(body, tuple) and body and isinstance(body[0], tuple) else body
+                general = general or ma["g"][3][2][1] == ("a", body, "simultaneous_list")
+    ctx.check(general, rule, fn.site, "_simultaneous.group-filter.partners", found="the group test ranges over " + ("every simultaneous partner" if general else "enclosing bodies only (or is absent)"),
+              required="a group is skipped unless, for every body it runs and every simultaneous partner of that body, the group contains a caller of the partner or of one of its declared alternatives")
 
 
 def group_has_enclosing(ctx: Ctx, pid: str):
